@@ -12,7 +12,7 @@ def run(chk):
     libs = _compose.load(_compose.KERNEL_LIBS, chk)
     _compose.obligations(chk, "C02", libs)
     for lib in libs:
-        lib.run_family(chk, "C02")
+        _compose.run_lib(lib, chk, "C02")
     for f in _compose.load(["_funcs"], chk):
         if hasattr(f, "run_composites"):
             f.run_composites(chk)
